@@ -733,6 +733,7 @@ class Effects:
         self.direct = {}      # nid -> set(effects)
         self.mut_params = {}  # nid -> set(param idx (1-based))
         self.sites = defaultdict(list)  # effect -> [(nid, line)]
+        self._cell_cache = {}
         self._compute()
 
     # ---- points-to (flow-insensitive, per function) ---------------------------------------------
@@ -754,7 +755,7 @@ class Effects:
                         rv = d[3]['rv']
                         k = rv['rv']
                         if k in ('ref', 'rawptr'):
-                            new |= self._place_regions(b, rv['pl'], pts)
+                            new |= self._place_regions(b, rv['pl'], pts, rv.get('mut', False))
                         elif k in ('use', 'cast'):
                             p = op_place(rv['op'])
                             if p is not None:
@@ -779,17 +780,21 @@ class Effects:
                         changed = True
         return pts
 
-    def _place_regions(self, b, pl, pts):
-        """Regions denoted by the place itself (for &place)."""
+    def _place_regions(self, b, pl, pts, mut):
+        """Regions denoted by the place itself (for &place / &mut place)."""
         out = set()
         fs = place_fields(pl)
+        m = 'mut' if mut else 'shared'
         if fs:
-            out.add(('field',) + fs[-1])
+            out.add(('field',) + fs[-1] + (m,))
             for f in fs[:-1]:
-                out.add(('fieldpath',) + f)
+                out.add(('fieldpath',) + f + (m,))
         base = pl['l']
         if place_has_deref(pl) or not fs:
-            out |= {r for r in pts.get(base, set())}
+            for r in pts.get(base, set()):
+                if not mut and len(r) == 4 and r[3] == 'mut':
+                    r = r[:3] + ('shared',)   # reborrowed as shared
+                out.add(r)
         if not place_has_deref(pl):
             out.add(('local', base))
         return out
@@ -819,7 +824,8 @@ class Effects:
                 if place_has_deref(pl) or pl.get('p'):
                     for r in pts.get(pl['l'], set()):
                         if r[0] in ('field', 'fieldpath') and place_has_deref(pl):
-                            e = ('write', r[1], r[2]); eff.add(e); self.sites[e].append((nid, line))
+                            if self._writable(r):
+                                e = ('write', r[1], r[2]); eff.add(e); self.sites[e].append((nid, line))
                         elif r[0] == 'param' and place_has_deref(pl):
                             mp.add(r[1])
                 self._reads_of_rvalue(nid, s['rv'], eff, line)
@@ -843,7 +849,8 @@ class Effects:
                     if place_has_deref(dpl):
                         for r in pts.get(dpl['l'], set()):
                             if r[0] in ('field', 'fieldpath'):
-                                e = ('write', r[1], r[2]); eff.add(e); self.sites[e].append((nid, line))
+                                if self._writable(r):
+                                    e = ('write', r[1], r[2]); eff.add(e); self.sites[e].append((nid, line))
                             elif r[0] == 'param':
                                 mp.add(r[1])
             for bi, si, s in b.stmts():
@@ -876,12 +883,53 @@ class Effects:
             return
         for r in pts.get(p['l'], set()):
             if r[0] in ('field', 'fieldpath'):
+                if not self._writable(r):
+                    continue
                 e = ('write', r[1], r[2])
                 if e not in eff:
                     eff.add(e)
                 self.sites[e].append((nid, line))
             elif r[0] == 'param':
                 mp.add(r[1])
+
+    CELL_HEADS = ('std::sync::atomic::Atomic', 'crossbeam_utils::atomic::AtomicCell', 'std::sync::Mutex<',
+                  'std::sync::RwLock<', 'std::cell::', 'dashmap::DashMap<', 'crossbeam_channel::Sender<',
+                  'crossbeam_channel::Receiver<', 'std::sync::OnceLock<', 'std::sync::Once')
+
+    def is_cell_type(self, tys, _seen=None):
+        """Interior-mutable *by value* (not through Arc/Box/reference indirection)."""
+        tys = tys.strip()
+        for w in ('std::option::Option<',):
+            if tys.startswith(w):
+                tys = tys[len(w):-1]
+        if tys.startswith(self.CELL_HEADS):
+            return True
+        _seen = _seen or set()
+        m = re.match(r'([\w:]+)', tys)
+        if m and m.group(1) in self.prog.adts and m.group(1) not in _seen:
+            _seen.add(m.group(1))
+            for v in self.prog.adts[m.group(1)]['variants']:
+                for f in v['fields']:
+                    if self.is_cell_type(f['ty']['s'], _seen):
+                        return True
+        return False
+
+    def _writable(self, r):
+        """May a write through a pointer into region r modify that field?"""
+        if len(r) < 4 or r[3] == 'mut':
+            return True
+        key = (r[1], r[2])
+        if key not in self._cell_cache:
+            a = self.prog.adts.get(r[1])
+            ok = True  # unknown (external) ADT: be conservative
+            if a:
+                ok = False
+                for v in a['variants']:
+                    for f in v['fields']:
+                        if f['name'] == r[2]:
+                            ok = self.is_cell_type(f['ty']['s'])
+            self._cell_cache[key] = ok
+        return self._cell_cache[key]
 
     def _reads_of_rvalue(self, nid, rv, eff, line):
         k = rv['rv']
